@@ -305,7 +305,25 @@ fn str_eq(a: &str, b: &str) -> (r: bool) ensures r == (a@ == b@) { a == b }
 
 // ---- the derive's documented meaning of the field attributes, as spec combinators --------------------------------
 // writer: an entry is written under its key unless the field's primitive form is Null
-pub open spec fn put(m: DMap, k: Seq<char>, v: Primitive) -> DMap { if v is Null { m } else { m.insert(k, v) } }
+// (same definition as in units/expansions; here *closed*, with its pointwise characterisation broadcast: the `if` on the Null test
+// makes the solver split once per entry and per looked-up key, which is exponential in the 10..21-entry models of this wave)
+pub mod dictmodel {
+    use vstd::prelude::*;
+    use super::pdf::primitive::*;
+    pub closed spec fn put(m: DMap, k: Seq<char>, v: Primitive) -> DMap { if v is Null { m } else { m.insert(k, v) } }
+    pub broadcast proof fn lemma_put_dom(m: DMap, k: Seq<char>, v: Primitive, j: Seq<char>)
+        ensures #[trigger] put(m, k, v).dom().contains(j) <==> ((j == k && !(v is Null)) || m.dom().contains(j))
+    {}
+    pub broadcast proof fn lemma_put_index(m: DMap, k: Seq<char>, v: Primitive, j: Seq<char>)
+        ensures #[trigger] put(m, k, v)[j] == (if j == k && !(v is Null) { v } else { m[j] })
+    {}
+    pub proof fn lemma_put_def(m: DMap, k: Seq<char>, v: Primitive)
+        ensures put(m, k, v) == (if v is Null { m } else { m.insert(k, v) })
+    {}
+    pub broadcast group group_put { lemma_put_dom, lemma_put_index }
+}
+pub use dictmodel::put;
+broadcast use dictmodel::group_put;
 pub open spec fn nm(s: Seq<char>) -> Primitive { Primitive::Name(SmallString { chars: Ghost(s) }) }
 // reader, plain `#[pdf(key=K)]` field: the entry, or Null when the key is absent; a failing present entry is
 // FromPrimitive{field}; an absent entry whose type cannot be read from Null is MissingEntry
